@@ -183,12 +183,75 @@ def run(ctx, scale=1):
         rep.finding(key, what, {"sql": st["sql"], "dialect": st["dialect"]})
 
 
+    quoting_styles(ctx, stmts)
+
+
+QUOTED_NAMES = [
+    "select `unit price`, `a b`.`c d` from `my table` as `x y` where `unit price` > 1",
+    "select `order`, `select` from `from` as `group`", "select t.`first name` as `full name` from people t order by `first name`",
+    "insert into `my t` (`a b`, `c`) values (1, 2), (3, 4)", "update `my t` set `a b` = 1 where `c d` = 2",
+    "select `a``b`, `x\"y` from t", "select count(`a b`) over (partition by `c d` order by `e f`) from `g h`",
+    "create table `my t` (`a b` int, `c d` varchar(10))", "delete from `my t` where `a b` in (1, 2)",
+]
+
+
+def quoting_styles(ctx, stmts):
+    """the identity must hold under BOTH identifier quoting styles format offers, also when the two are used in the
+    same process in either order: format(t) is read back by parse, format(t, ansi_quotes=False) by parse_mysql
+    (for which a double-quoted text would be a string literal)"""
+    rep = ctx.rep
+    R = C.real()
+    rng = ctx.rng
+    cand = [{"sql": s, "dialect": "common", "origin": "quoted-names"} for s in QUOTED_NAMES]
+    pool_ = [st for st in stmts if st["dialect"] == "common" and '"' not in st["sql"] and "[" not in st["sql"] and "@" not in st["sql"]]
+    cand += rng.sample(pool_, min(len(pool_), 150 if ctx.quick else 3000))
+    for st in cand:
+        r = R.parse_raw(st["sql"])
+        rm = R.parse_raw(st["sql"], "mysql")
+        if r[0] != "ok" or not in_fragment(r[1]) or rm[0] != "ok" or first_diff(r[1], rm[1]) is not None:
+            rep.count("quoting", "skipped")
+            continue
+        t = r[1]
+        # the plain round trip must hold first (its failures are reported by the main loop)
+        f0 = R.format_raw(t)
+        if f0[0] != "ok":
+            continue
+        r0 = R.parse_raw(f0[1])
+        if r0[0] != "ok" or first_diff(t, r0[1]) is not None:
+            rep.count("quoting", "skipped-plain-roundtrip-fails")
+            continue
+        order = [True, False] if rng.random() < 0.5 else [False, True]
+        for ansi in order + order[:1]:
+            f = R.format_raw(t, ansi_quotes=ansi)
+            rep.case("%s|%s" % (ansi, st["sql"]))
+            rep.count("quoting", "ansi" if ansi else "backtick")
+            if f[0] != "ok":
+                rep.finding("quoting:format-raises", "format(parse(%r), ansi_quotes=%s) raised %s" % (st["sql"][:140], ansi, f[1]),
+                            {"sql": st["sql"], "dialect": "common", "kind": "quoting", "order": order})
+                continue
+            r2 = R.parse_raw(f[1], "common" if ansi else "mysql")
+            if r2[0] != "ok" or first_diff(t, r2[1]) is not None:
+                rep.finding("quoting:%s-style-roundtrip" % ("ansi" if ansi else "backtick"),
+                            "format(parse(%r), ansi_quotes=%s) = %r is read back as %s" % (st["sql"][:120], ansi, f[1][:160], (C.cdump(C.canon(r2[1]))[:160] if r2[0] == "ok" else r2[1])),
+                            {"sql": st["sql"], "dialect": "common", "kind": "quoting", "order": order})
+
+
 def search(ctx):
     run(ctx, scale=4)
 
 
 def replay(ctx, p):
     R = C.real()
+    if p.get("kind") == "quoting":
+        t = R.parse_raw(p["sql"])[1]
+        bad = False
+        for ansi in p["order"] + p["order"][:1]:
+            f = R.format_raw(t, ansi_quotes=ansi)
+            r2 = R.parse_raw(f[1], "common" if ansi else "mysql") if f[0] == "ok" else ("err",)
+            print(ansi, f[1] if f[0] == "ok" else f)
+            if r2[0] != "ok" or first_diff(t, r2[1]) is not None:
+                bad = True
+        return bad
     r = R.parse_raw(p["sql"], p["dialect"])
     print(r)
     if r[0] != "ok":
